@@ -62,6 +62,7 @@ func checkC12(r *core.Run) {
 	c12MemInputCounters(r, p, "R-C12-sort")
 	c12PkgCache(r, p)
 	c12OverlapScanComplete(r, p, "R-C12-sort")
+	c12SortSkipMarksDirty(r, p, "R-C12-sort")
 	// a transaction is unlinked from the pool (its inputs released, its map entry removed) before the fee
 	// packages are updated: the package update rebuilds membership by walking the spent-outputs map, and would
 	// put the transaction that is being deleted back into its package
@@ -1286,4 +1287,94 @@ func c12OverlapScanComplete(r *core.Run, p *core.Program, rule string) {
 		}
 	}
 	r.Check(bad == "", rule, key, p.Pos(fn.Pos()), "the scan ends when the members are exhausted or one is found", bad)
+}
+
+// c12SortSkipMarksDirty: AddToSort / DelFromSort may leave the fee-ordered list as it is (sorting is
+// suspended while a block is committed, or the list is already known to be stale) - but only if the list is,
+// or is then marked, dirty, so that the next listing rebuilds it.  Every way from the entry of the function to
+// a return passes a change of the list, the outcome "SortListDirty is true" of a test, or the assignment
+// SortListDirty = true.  A return without any of these leaves a pooled transaction out of (or a deleted one
+// in) a list that is believed to be up to date.
+func c12SortSkipMarksDirty(r *core.Run, p *core.Program, rule string) {
+	for _, name := range []string{"AddToSort", "DelFromSort"} {
+		fn := p.Func("client/txpool.(*OneTxToSend)." + name)
+		key := "sort-skip-marks-dirty/" + name
+		if fn == nil {
+			r.Fail(rule, key, "-", name+" not found")
+			continue
+		}
+		isDirtyLoad := func(v ssa.Value) bool {
+			ld, ok := v.(*ssa.UnOp)
+			if !ok || ld.Op != token.MUL {
+				return false
+			}
+			g, ok := ld.X.(*ssa.Global)
+			return ok && g.Name() == "SortListDirty"
+		}
+		covers := func(i ssa.Instruction) bool {
+			switch x := i.(type) {
+			case *ssa.Store:
+				if g, ok := x.Addr.(*ssa.Global); ok {
+					if g.Name() == "SortListDirty" && an.Expr(x.Val) == "true" {
+						return true
+					}
+					if g.Name() == "WorstT2S" || g.Name() == "BestT2S" {
+						return true
+					}
+				}
+				if f, ok := an.FieldOf(x.Addr); ok && (strings.HasSuffix(f, "OneTxToSend.better") || strings.HasSuffix(f, "OneTxToSend.worse")) {
+					return true
+				}
+			case *ssa.Call:
+				cn := an.CallName(x)
+				if strings.Contains(cn, "OneTxToSend).insert") || strings.Contains(cn, "OneTxToSend).fixIndex") {
+					return true
+				}
+			}
+			return false
+		}
+		bad := ""
+		seen := map[*ssa.BasicBlock]bool{}
+		work := []*ssa.BasicBlock{fn.Blocks[0]}
+		for len(work) > 0 && bad == "" {
+			b := work[len(work)-1]
+			work = work[:len(work)-1]
+			if seen[b] {
+				continue
+			}
+			seen[b] = true
+			covered := false
+			for _, ins := range b.Instrs {
+				if covers(ins) {
+					covered = true
+				}
+			}
+			if covered {
+				continue
+			}
+			last := b.Instrs[len(b.Instrs)-1]
+			if _, isRet := last.(*ssa.Return); isRet {
+				bad = "the function can return at " + p.Pos(an.InstrPos(last)) + " without having changed the list and without the list being marked dirty"
+				break
+			}
+			succs := b.Succs
+			if iff, ok := last.(*ssa.If); ok && len(succs) == 2 {
+				c := iff.Cond
+				neg := false
+				if u, ok := c.(*ssa.UnOp); ok && u.Op == token.NOT {
+					neg, c = true, u.X
+				}
+				if isDirtyLoad(c) {
+					// the "dirty" outcome needs nothing more
+					if neg {
+						succs = succs[:1]
+					} else {
+						succs = succs[1:]
+					}
+				}
+			}
+			work = append(work, succs...)
+		}
+		r.Check(bad == "", rule, key, p.Pos(fn.Pos()), "every return follows a change of the list or finds / leaves the list marked dirty", bad)
+	}
 }
